@@ -250,13 +250,13 @@ Ltac rel_crush :=
 
 Theorem src_TimeStamp v : src_rel Num (Source.TimeStamp_validate v) (validate TTimeStamp (Num v)).
 Proof.
-  unfold Source.TimeStamp_validate, Source.TimeStamp__positive_times, validate. cbn [parse as_num option_map accept normalise].
+  autounfold with src. unfold validate. cbn [parse as_num option_map accept normalise].
   rel_crush.
 Qed.
 
 Theorem src_TimeInterval v : src_rel t1 (Source.TimeInterval_validate v) (validate TTimeInterval (t1 v)).
 Proof.
-  unfold Source.TimeInterval_validate, Source.TimeInterval__validate_time_interval, Source.TimeInterval__positive_times.
+  autounfold with src.
   destruct v as [|a [|b [|c r]]]; try (cbn; exact I).
   - unfold validate, t1. cbn [map parse accept normalise py_len length py_index nth_error bind existsb].
     change (py_len [a; b]) with 2%Z. change (2 =? 2)%Z with true. cbn [negb].
@@ -268,7 +268,7 @@ Qed.
 
 Theorem src_Point v : src_rel t1 (Source.Point_validate v) (validate TPoint (t1 v)).
 Proof.
-  unfold Source.Point_validate, Source.Point__validate_coordinates.
+  autounfold with src.
   destruct v as [|a [|b [|c r]]]; try (cbn; exact I).
   - unfold validate, t1. cbn [map parse accept normalise bind]. unfold src_rel.
     replace (negb (py_len [a; b] =? 2)%Z) with false by reflexivity.
@@ -286,7 +286,7 @@ Qed.
 
 Theorem src_BoundingBox v : src_rel t1 (Source.BoundingBox_validate v) (validate TBBox (t1 v)).
 Proof.
-  unfold Source.BoundingBox_validate, Source.BoundingBox__validate_coordinates.
+  autounfold with src.
   destruct v as [|a [|b [|c [|d [|x r]]]]]; try (cbn; exact I).
   - unfold validate, t1. cbn [map parse accept normalise bind].
     change (py_len [a; b; c; d]) with 4%Z. change (4 =? 4)%Z with true. cbn [negb].
@@ -302,7 +302,7 @@ Qed.
 (* ---------- MultiPoint ---------- *)
 Theorem src_MultiPoint v : src_rel t2 (Source.MultiPoint_validate v) (validate TMultiPoint (t2 v)).
 Proof.
-  unfold Source.MultiPoint_validate, Source.MultiPoint__validate_coordinates.
+  autounfold with src.
   unfold validate. cbn [parse]. rewrite as_pts_t2.
   name_pt_body Hpt.
   destruct (forallb chk_pt v) eqn:Hc.
@@ -363,7 +363,7 @@ Proof. apply forallb_rev. Qed.
 (* ---------- LineString ---------- *)
 Theorem src_LineString v : src_rel t2 (Source.LineString_validate v) (validate TLineString (t2 v)).
 Proof.
-  unfold Source.LineString_validate, Source.LineString__validate_coordinates, Source.LineString__is_ordered_by_time.
+  autounfold with src.
   unfold validate. cbn [parse]. rewrite as_pts_t2.
   name_pt_body Hpt.
   destruct (forallb chk_pt v) eqn:Hc.
@@ -417,7 +417,7 @@ Proof. intro H. rewrite forallb_map. apply (forallb_ext_in _ _ (forallb is_pt));
 (* ---------- Polygon ---------- *)
 Theorem src_Polygon v : src_rel t3 (Source.Polygon_validate v) (validate TPolygon (t3 v)).
 Proof.
-  unfold Source.Polygon_validate, Source.Polygon__validate_coordinates.
+  autounfold with src.
   unfold validate. cbn [parse]. rewrite as_ptss_t3.
   name_seq_body Hr ref_ring.
   destruct (forallb ref_ring v) eqn:Hc; use_loop Hr Hc; cbn [bind].
@@ -450,8 +450,7 @@ Definition strict_line (l : list (list Q)) : bool :=
 Theorem src_MultiLineString v :
   src_rel t3 (Source.MultiLineString_validate v) (validate TMultiLineString (t3 v)).
 Proof.
-  unfold Source.MultiLineString_validate, Source.MultiLineString__validate_coordinates,
-    Source.MultiLineString__each_line_is_ordered_by_time.
+  autounfold with src.
   unfold validate. cbn [parse]. rewrite as_ptss_t3.
   name_seq_body Hr ref_line.
   destruct (forallb ref_line v) eqn:Hc; use_loop Hr Hc; cbn [bind].
@@ -499,7 +498,7 @@ Proof. intro H. rewrite forallb_map. apply (forallb_ext_in _ _ (forallb (forallb
 Theorem src_MultiPolygon v :
   src_rel t4 (Source.MultiPolygon_validate v) (validate TMultiPolygon (t4 v)).
 Proof.
-  unfold Source.MultiPolygon_validate, Source.MultiPolygon__validate_coordinates.
+  autounfold with src.
   unfold validate. cbn [parse]. rewrite as_ptsss_t4.
   match goal with
   | |- context [for_each _ ?f] =>
